@@ -805,3 +805,21 @@ func machineWordOps(P *Prog, fn *ssa.Function, depth int, ops map[token.Token]bo
 	}
 	return out
 }
+
+// commitBodyFn: the function of x/evm/statedb that holds the write-back loop — (*StateDB).commit when Commit/Flush
+// delegate to it, otherwise (*StateDB).Commit itself.
+func commitBodyFn(P *Prog) (*ssa.Function, bool) {
+	if fn, ok := P.FnOK("(*x/evm/statedb.StateDB).commit"); ok {
+		return fn, true
+	}
+	return P.FnOK("(*x/evm/statedb.StateDB).Commit")
+}
+
+// isFlushCall: a call that writes the StateDB's dirty state to the keeper (Commit, or the mid-transaction Flush).
+func isFlushCall(ci CallInfo) bool {
+	return (ci.Name == "Commit" || ci.Name == "Flush") && ci.Recv == "StateDB"
+}
+
+// commitInstID: obligations about the write-back loop are keyed by the public method it implements, wherever the
+// loop's body lives (Commit itself, or the commit(bool) that Commit and Flush share).
+const commitInstID = "(*x/evm/statedb.StateDB).Commit"
